@@ -97,6 +97,10 @@ class Library:
 
     # ---- operators ---------------------------------------------------------------
     def binop(self, ex, op, a, b, node):
+        if ex.opts.get("leaf_binop") is not None and ((is_sym(a) and a.sort() == Leaf) or (is_sym(b) and b.sort() == Leaf)):
+            r = ex.opts["leaf_binop"](ex, op, a, b)
+            if r is not None:
+                return r
         if isinstance(a, Arr) or isinstance(b, Arr):
             return self.arr_binop(ex, op, a, b, node)
         if isinstance(op, ast.Add):
@@ -390,6 +394,10 @@ class Library:
     def getitem(self, ex, o, i, node):
         if hasattr(o, "pyvc_getitem"):
             return o.pyvc_getitem(ex, i)
+        if is_sym(o) and o.sort() == Leaf and ex.opts.get("leaf_getitem") is not None:
+            r = ex.opts["leaf_getitem"](ex, o, i)
+            if r is not None:
+                return r
         if isinstance(o, Seq):
             if isinstance(i, slice):
                 return self.seq_slice(ex, o, i, node)
